@@ -151,7 +151,11 @@ func genTree(t *Tape, o TreeOpts) *TreeCase {
 			if !o.Minimal {
 				na := t.Draw(3)
 				for a := 0; a < na; a++ {
-					c.Name += fmt.Sprintf(" k%d_%d", lvl, a)
+					sep := " "
+					if o.Fancy && t.Draw(4) == 0 {
+						sep = []string{"  ", "\t", " \t "}[t.Draw(3)] // any white space separates the names
+					}
+					c.Name += fmt.Sprintf("%sk%d_%d", sep, lvl, a)
 				}
 				if na > 0 {
 					alias = fmt.Sprintf("k%d_%d", lvl, t.Draw(na))
